@@ -27,6 +27,13 @@ where
             break;
         }
 
+        // Like the sync reader, skip carriage returns at the beginning of a line.
+        if is_bol && src[0] == CARRIAGE_RETURN {
+            reader.consume(1);
+            n += 1;
+            continue;
+        }
+
         // The carriage return that ended the previous buffer is part of the line terminator only
         // if a line feed follows.
         if has_pending_cr && src[0] != LINE_FEED {
@@ -79,6 +86,10 @@ mod tests {
         t(&mut buf, b"ACGT\r\n>sq1\r\n", b"ACGT").await?;
         t(&mut buf, b"ACGT\r\n\r\nACGT\r\nAC\r\n\r\n", b"ACGTACGTAC").await?;
 
+        // carriage returns at the beginning of a line are skipped, as in the sync reader
+        t(&mut buf, b"\r\rAC\n\rG\n", b"ACG").await?;
+        t(&mut buf, b"AC\n\r>sq1\n", b"AC").await?;
+
         Ok(())
     }
 
@@ -103,6 +114,7 @@ mod tests {
         t(b"ACGT\r\nAC\r\n\r\n>sq1\r\n").await?;
         t(b"AC\rGT\nAC\r\r\nA\r").await?;
         t(b"AC>GT\nA>\n>sq1\n").await?;
+        t(b"\r\rAC\n\rG\r\n\r>sq1\n").await?;
 
         Ok(())
     }
